@@ -3,6 +3,7 @@ import PasslibVerif.Model.Formats.Md5Sha2
 import PasslibVerif.Model.Formats.Static
 import PasslibVerif.Model.Formats.DesBcrypt
 import PasslibVerif.Model.Formats.Pbkdf
+import PasslibVerif.Model.Formats.Misc
 namespace Driver.Formats
 open Py Driver Model.Handler Model.Formats
 
@@ -14,23 +15,59 @@ def showParsed (p : Parsed) : String :=
   s!"{showNatList p.ident} {showOptInt p.rounds} {showOptStr p.salt} {showOptStr p.checksum} " ++
   (if p.extra.isEmpty then "-" else ";".intercalate (p.extra.map fun kv => kv.1 ++ "=" ++ showNatList kv.2))
 
-def formats : List Format := Model.Formats.all ++ Model.Formats.staticAll ++ Model.Formats.desBcryptAll ++ Model.Formats.pbkdfAll
+def formats : List Format := Model.Formats.all ++ Model.Formats.staticAll ++ Model.Formats.desBcryptAll ++ Model.Formats.pbkdfAll ++ Model.Formats.miscAll
 
 /-- formats modelled with exact error classes (TypeError of `b64s_decode` / of rendering without checksum) -/
 def formatsX : List FormatX := Model.Formats.pbkdfAllX
 
+/-- formats with error kinds / a `None` outcome (Misc family) -/
+def formatsE : List FormatE := Model.Formats.miscAllE
+
+def inDomain (name : String) (h : Str) : Bool :=
+  match miscDomain.find? (·.1 = name) with | some (_, p) => p h | none => true
+
+def showOptParsed : Option Parsed → String | some p => showParsed p | none => "None"
+
+def handleE (f : FormatE) (op : String) (h : Str) : String :=
+  if !inDomain f.name h then "unmodelled"
+  else match op with
+  | "parse" => showRes showOptParsed (f.parseE h)
+  | "reparse" => match f.parseE h with
+    | .ok (some p) => showRes showNatList (f.renderE p)
+    | .ok none => "ok None"
+    | .error e => "err " ++ e.name
+  | "identify" => "ok " ++ (if f.identify h then "1" else "0")
+  | _ => bad
+
+def handleX (f : FormatX) (op : String) (h : Str) : String :=
+  match op with
+  | "parse" => showRes showParsed (f.parseX h)
+  | "reparse" => showRes showNatList ((f.parseX h).bind f.renderX)
+  | "identify" => "ok " ++ (if f.identify h then "1" else "0")
+  | _ => bad
+
 def handle (args : List String) : String :=
   match args with
-  | ["parse", name, h] => match formatsX.find? (·.name = name), natList h with
-    | some f, some h => showRes showParsed (f.parseX h)
-    | _, _ => match formats.find? (·.name = name), natList h with
-    | some f, some h => showRes showParsed (toRes (f.parse h)) | _, _ => bad
-  | ["reparse", name, h] => match formatsX.find? (·.name = name), natList h with
-    | some f, some h => showRes showNatList ((f.parseX h).bind f.renderX)
-    | _, _ => match formats.find? (·.name = name), natList h with
-    | some f, some h => showRes (fun p => showNatList (f.render p)) (toRes (f.parse h)) | _, _ => bad
-  | ["identify", name, h] => match formats.find? (·.name = name), natList h with
-    | some f, some h => "ok " ++ (if f.identify h then "1" else "0") | _, _ => bad
+  | ["a2b", h] => match natList h with
+    | some h => (match a2b h with | some b => "ok " ++ showNatList b | none => "err ValueError") | none => bad
+  | [op, name, h] =>
+    match natList h with
+    | none => bad
+    | some h =>
+      match formatsE.find? (·.name = name) with
+      | some f => handleE f op h
+      | none =>
+        match formatsX.find? (·.name = name) with
+        | some f => handleX f op h
+        | none =>
+          match formats.find? (·.name = name) with
+          | none => bad
+          | some f =>
+            match op with
+            | "parse" => showRes showParsed (toRes (f.parse h))
+            | "reparse" => showRes (fun p => showNatList (f.render p)) (toRes (f.parse h))
+            | "identify" => "ok " ++ (if f.identify h then "1" else "0")
+            | _ => bad
   | _ => bad
 
 end Driver.Formats
